@@ -216,7 +216,7 @@ func run(r *ev.Run) {
 		}()
 	}
 	runPool(bigJobs, 2)
-	runPool(jobs, 10)
+	runPool(jobs, 14)
 	wg.Wait()
 
 	r.Extra("sessions", len(jobs)+len(bigJobs))
